@@ -250,6 +250,15 @@ def run_case(desc):
     spec0, edits, rows = case['spec0'], case['edits'], case['rows']
     lab = siglab.Lab('default')
     lab.start(spec0, rows)
+    reused = False
+    if desc.get('mode') == 'walk' and desc['i'] % 6 == 0 and \
+            list(spec0)[:2] == ['app1', 'app2'] and \
+            not any(e['op'] == 'rename_app' for e in edits):
+        # a reused label: app1 lives in a package called "app2" (its legacy
+        # label) while another app carries the label app2.  Looking an app
+        # up by its own label must still find that app first.
+        lab.psig.get_app_sig('app1').legacy_app_label = 'app2'
+        reused = True
     history = [spec0]
     for e in edits:
         history.append(E.apply_edit(history[-1], e))
@@ -298,6 +307,7 @@ def run_case(desc):
             seen.add(k)
             items.append(it)
     stats['sig_walks'] = walker.walks
+    stats['reused_label_cases'] = int(reused)
     stats['refs_checked'] = walker.refs_checked
     if ok:
         got = lab.snapshot()
